@@ -851,7 +851,9 @@ where
         &mut self,
         cx: &mut Context<'_>,
     ) -> Poll<Result<Option<impl Buf>, StreamError>> {
-        if !self.stream.has_data() {
+        // A DATA frame of length zero carries no content and does not end the body:
+        // keep reading frame headers until one announces payload (or the body ends).
+        while !self.stream.has_data() {
             match ready!(self.stream.poll_next(cx)) {
                 Err(frame_stream_error) => {
                     return Poll::Ready(Err(
